@@ -43,6 +43,8 @@ type Link struct {
 	Overlaps []string
 	Ends     [2]*End
 
+	// PostYield: a scheduling point after every successful SendMsg, before it returns to its caller
+	PostYield bool
 	// OnSend, if set, observes every packet at the moment its SendMsg gate is
 	// released (before it is queued).
 	OnSend func(from string, p *types.Packet)
@@ -168,7 +170,14 @@ func (l *Link) fails(key string) bool {
 	return ok && c == k
 }
 
-func desc(p *types.Packet) string { return Pkt{P: p}.String() }
+// desc names a packet in a scheduling point. It must be the same in every execution of a scenario: the text of an
+// ERR packet quotes paths below a per-execution scratch directory, so only its length class is kept.
+func desc(p *types.Packet) string {
+	if p.Type == types.PACKET_ERR {
+		return " ERR"
+	}
+	return Pkt{P: p}.String()
+}
 
 func (e *End) SendMsg(m interface{}) error {
 	p, ok := m.(*types.Packet)
@@ -191,26 +200,34 @@ func (e *End) SendMsg(m interface{}) error {
 	if e.l.OnSend != nil {
 		e.l.OnSend(e.Name, p)
 	}
-	e.l.mu.Lock()
-	defer e.l.mu.Unlock()
-	if e.l.fails(key) {
-		return fmt.Errorf("netsim: injected %s failure", key)
+	err := func() error {
+		e.l.mu.Lock()
+		defer e.l.mu.Unlock()
+		if e.l.fails(key) {
+			return fmt.Errorf("netsim: injected %s failure", key)
+		}
+		if e.l.Torn || e.Broken {
+			return e.l.brokenErr()
+		}
+		if e.PeerGone {
+			return io.ErrClosedPipe
+		}
+		if e.out.closed {
+			return io.ErrClosedPipe
+		}
+		e.out.q = append(e.out.q, raw)
+		var cp types.Packet
+		if err := cp.UnmarshalVT(raw); err == nil {
+			e.l.Log = append(e.l.Log, Pkt{From: e.Name, P: &cp})
+		}
+		return nil
+	}()
+	if err == nil && e.l.PostYield {
+		// the call returns late (a synchronous transport, or the caller is descheduled on return): the packet is
+		// already on its way when the caller gets to run again
+		vrt.Point(key + ".done" + desc(p))
 	}
-	if e.l.Torn || e.Broken {
-		return e.l.brokenErr()
-	}
-	if e.PeerGone {
-		return io.ErrClosedPipe
-	}
-	if e.out.closed {
-		return io.ErrClosedPipe
-	}
-	e.out.q = append(e.out.q, raw)
-	var cp types.Packet
-	if err := cp.UnmarshalVT(raw); err == nil {
-		e.l.Log = append(e.l.Log, Pkt{From: e.Name, P: &cp})
-	}
-	return nil
+	return err
 }
 
 func (e *End) RecvMsg(m interface{}) error {
